@@ -5,6 +5,9 @@
 // error class) is compared with a reference model (content map + tag map), and
 // after every refused / failed step the whole observable state is compared.
 //
+// Cross phase (oci): references and the content they name are contended
+// together (Tag against Delete of the same descriptor), see cross.go.
+//
 // Concurrent phase: several goroutines issue calls on a few keys; every call is
 // recorded at the boundary (call stamp, result, return stamp) together with a
 // read-back of everything after quiescence, and porcupine decides, per content
@@ -37,7 +40,9 @@ func main() {
 		"history of 60–400 Push/PushBadBytes/Fetch/Exists/Tag/Resolve/Predecessors (+Untag/Delete/Tags/SaveIndex on oci)); every result is compared with a content-map + tag-map model, the full observable state after every refused or failed step; " +
 		"distinct = hash(kind, options, sequence of op/outcome classes); non-trivial = the history contains a refused re-push, a reference moved between different contents and a not-found outcome. " +
 		"concurrent case = 4–16 goroutines, 20–60 calls on 2–8 content keys and 1–3 references, every tagged descriptor unique, set-up and read-back after quiescence recorded as calls; porcupine per content key / reference; " +
-		"distinct = hash(kind, options, order of call/return events); non-trivial = two calls of different goroutines on one key overlapped in time and one of them was a write")
+		"distinct = hash(kind, options, order of call/return events); non-trivial = two calls of different goroutines on one key overlapped in time and one of them was a write. " +
+		"cross case (oci only) = 4–12 goroutines, 24–60 calls: Tag/re-Tag/Untag/Resolve of 1–3 references against Delete/re-Push/Exists/Fetch of the SAME descriptor (1–2 descriptors); judged by a combined porcupine model (present?, ref→value) per descriptor, by the quiescent invariant Resolve(r)=d ⇒ Exists(d) ∧ Fetch(d) ok ∧ Tags = resolvable references, and by the real-time rule 'no Tag returns nil after a Delete had returned with no successful Push in between'; " +
+		"non-trivial = a Tag/Untag overlapped a Delete or Push of the same descriptor issued by another goroutine and some Delete succeeded")
 	r.Assume("concurrent model is relaxed where the statement is silent: a Push linearized onto the same bytes already present may return nil or already-exists / duplicate-name; an Untag linearized onto an untagged reference may return nil or not-found")
 	r.Assume("Predecessors is compared at quiescence only (documented as not snapshot-consistent); in the sequential phase it is compared after every step")
 	r.Assume("unjudged: file-store descriptor whose name is held by other bytes (only 'never wrong bytes' is demanded); oci Delete of bytes that are tagged under another media type; AutoGC off (C09)")
@@ -52,6 +57,7 @@ func main() {
 
 	worker.Run(r, worker.Opts{Phase: "seq", Total: r.N(600, 12000), Batch: 50, Env: env})
 	worker.Run(r, worker.Opts{Phase: "conc", Total: r.N(1200, 45000), Batch: 100, Env: env})
+	worker.Run(r, worker.Opts{Phase: "cross", Total: r.N(600, 12000), Batch: 100, Env: env})
 	if bin := os.Getenv("VERIF_RACE_BIN"); bin != "" {
 		raceDir := filepath.Join(tmp, "racelogs")
 		os.MkdirAll(raceDir, 0o755)
@@ -73,9 +79,11 @@ func runCase(phase string, i int) worker.Result {
 	if n, err := strconv.ParseInt(os.Getenv("VERIF_SEED"), 10, 64); err == nil {
 		seed = n
 	}
-	switch phase {
-	case "seq":
+	switch {
+	case phase == "seq":
 		return runSeq(i, seed)
+	case phase == "cross", phase == "race" && i%4 == 3:
+		return runCross(phase, i, seed)
 	default:
 		return runConc(phase, i, seed)
 	}
